@@ -13,7 +13,9 @@ import itertools
 
 from lib import prelude  # noqa: F401
 from lib.chutil import realize, untraced
-from lib.ob import Ob
+from lib.ob import Ob, ZOb
+import subprocess
+import sys
 
 from doctrans import parse
 
@@ -217,6 +219,43 @@ def cls_merge(style, npos, nd, docmask, active):
         return True
 
 
+SEED_SCRIPT = r'''
+import sys, ast
+sys.path.insert(0, "/verif")
+import lib.prelude
+import harness.C07 as C07
+from doctrans import parse, emit
+out = []
+for style in range(3):
+    for cfg in C07.CONFIGS["quick"]:
+        npos, nd, nkw, kwmask, has_kw, docmask, perm = cfg
+        names = list(C07.POS[:npos]) + list(C07.KWO[:nkw]) + (["kw"] if has_kw else [])
+        documented = C07._documented(names, docmask, perm)
+        if style == 0 and "kw" in documented:
+            continue
+        fd = C07.mk_fn(npos, nd, nkw, kwmask, has_kw, 0, style, documented, (11, 12, 13, 21, 22))
+        ir = parse.function(fd)
+        out.append(repr(list(ir["params"].items())))
+        out.append(ast.unparse(ast.fix_missing_locations(emit.function(ir, "f", None, word_wrap=False))))
+import hashlib
+print(hashlib.sha256("\n".join(out).encode()).hexdigest())
+'''
+
+
+def seed_sweep(n):
+    """process-level confirmation used on replay (and once per run as a cheap cross-check): identical digest under n hash seeds"""
+    digs = set()
+    for seed in list(range(n)) + ["random"]:
+        env = {"PYTHONHASHSEED": str(seed), "PATH": "/usr/bin:/bin", "PYTHONDONTWRITEBYTECODE": "1"}
+        p = subprocess.run([sys.executable, "-c", SEED_SCRIPT], capture_output=True, text=True, env=env)
+        if p.returncode != 0:
+            return {"status": "inconclusive", "detail": p.stderr[-400:]}
+        digs.add(p.stdout.strip())
+    if len(digs) == 1:
+        return {"status": "discharged", "detail": "identical output digest under PYTHONHASHSEED 0..%d and random" % (n - 1), "queries": n + 1}
+    return {"status": "violated", "detail": "%d different outputs across hash seeds" % len(digs), "cex": {"seeds": n}, "queries": n + 1}
+
+
 def obligations(tier, seed):
     obs = []
     mp = 2 if tier == "quick" else 3
@@ -246,6 +285,10 @@ def obligations(tier, seed):
                 bounds="def f(a: int, b: str, c, *, k: float, m) with %d positional defaults, keyword-only default mask %d, documented %r; "
                 "the default values are unbounded symbolic ints" % (nd, kwmask, documented),
                 timeout=150 if tier == "quick" else 600, path_timeout=100, funcs=FUNCS))
+    obs.append(ZOb(name="hashseed_sweep", run=lambda: seed_sweep(8 if tier == "quick" else 32),
+                   replay=lambda cex: (seed_sweep(12)["status"] == "violated", "re-ran the sweep"),
+                   bounds="'independent of any run-to-run variation': the whole quick configuration table x 3 styles converted in sub-processes "
+                   "under PYTHONHASHSEED 0..%d and random; one digest" % (7 if tier == "quick" else 31)))
     obs.append(Ob(name="class_init_merge", params=[("style", "int"), ("npos", "int"), ("nd", "int"), ("docmask", "int")],
                   pre=["0 <= style <= 2", "0 <= npos <= %d" % mp, "0 <= nd <= npos", "0 <= docmask < 2 ** npos"],
                   body="H.cls_merge(style, npos, nd, docmask, {ACTIVE})", witness=(0, 2, 1, 1), kind="F",
